@@ -25,7 +25,7 @@ async def plain_history():
     else:
         admit = lambda t: isinstance(t, TerminationToken) or int(t.value) % 2 == 0
         port = FilterTokenPort(WF, "p", filter_function=lambda t: int(t.value) % 2 == 0)
-    model, seen = [], {}
+    model, seen, closed, no_close = [], {}, set(), set()
     consumers = [f"c{i}" for i in range(rng.randint(1, 4))]
     for step in range(rng.randint(3, 25)):
         if rng.random() < 0.55:
@@ -42,9 +42,15 @@ async def plain_history():
                     return {"failure": "consumer did not get the next token in put order", "consumer": c, "position": k,
                             "got": (got.tag, got.value), "expected": (model[k].tag, model[k].value), "kind": kind}
                 seen[c] = k + 1
+                if rng.random() < 0.2 and c not in closed and c not in no_close:
+                    # the consumer closes its side (Step.terminate does, once); it stays subscribed: reading on gives the next tokens only
+                    closed.add(c)
+                    port.close(c)
             elif rng.random() < 0.35:
                 # nothing to read yet: the consumer waits, and its pending get() is cancelled (a timeout, a cancelled step); it must
                 # not cost the consumer any later token
+                if c not in port.queues:
+                    no_close.add(c)  # (asyncio.Queue.task_done() bookkeeping: a consumer whose FIRST get() was cancelled has no spare task_done left for close())
                 try:
                     await asyncio.wait_for(port.get(c), 0.005)
                     return {"failure": "get() returned although every token had been delivered to this consumer", "consumer": c, "kind": kind}
